@@ -1,7 +1,7 @@
 (* C06: trace checker (model vs implementation) and monitor (the property as a boolean over
    the implementation's observations: calls with authorisation sets, outcomes, all public
    getters over the small universe).  The monitor uses no model state. *)
-From SC Require Import Lib.Prelude Lib.Int Lib.Host Model.RoleTransfer Model.Access Model.AllowList.
+From SC Require Import Lib.Prelude Lib.Int Lib.Host Model.RoleTransfer Model.Access Model.AllowList Model.AccessLow.
 From SC Require Run.C07.
 
 Record aheader := {
@@ -19,7 +19,15 @@ Definition aitem := (Access.call * bool * aobs)%type.
 Record alheader := { alh : aheader; alh_manager : role; alh_macct : addr }.
 Definition alitem := (alcall * bool * alobs)%type.
 
+(* contracts whose constructor grants roles to caller-supplied account lists through grant_role_no_auth
+   (examples/fee-forwarder-permissioned, examples/timelock-controller, a bare wrapper of the library), and the
+   library's low-level no-auth entry points: the header of the AccessControl part and the (account, role) pairs
+   the constructor was told to grant, in the order it grants them, duplicates included *)
+Record lheader := { lh : aheader; lh_ctor : list (addr * role) }.
+Definition litem := (lcall * bool * aobs)%type.
+
 Inductive trace :=
+| TLow (h : lheader) (o0 : aobs) (l : list litem)          (* constructors with account lists + the *_no_auth entry points *)
 | TAllow (h : alheader) (o0 : alobs) (l : list alitem)    (* examples/fungible-allowlist: role-guarded allow / disallow *)
 | TAC (h : aheader) (o0 : aobs) (l : list aitem)          (* examples/nft-access-control; o0 = getters right after construction *)
 | TOwn (h : C07.header) (l : list C07.item).              (* examples/ownable: #[only_owner] *)
@@ -413,10 +421,125 @@ Definition wf_alheader (h : alheader) : bool :=
   && existsb (N.eqb (alh_manager h)) (u_roles (ah_u (alh h)))
   && negb (N.eqb (ah_max_roles (alh h)) 0).
 
+(* ======================= constructors with account lists and the low-level (no-auth) entry points ======================= *)
+Definition lh_cfg (h : lheader) : cfg := ah_cfg (lh h).
+Definition lh_init (h : lheader) : st := linit (lh_cfg h) (ah_start (lh h)) (ah_admin (lh h)) (lh_ctor h).
+
+Fixpoint l_diff_from (c : cfg) (u : universe) (s : st) (l : list litem) (i : N) : N :=
+  match l with
+  | [] => 0%N
+  | (cl, ok, ob) :: r =>
+      let '(s', ok') := lstep c s cl in
+      if Bool.eqb ok ok' && eqb_aobs ob (Access.observe u s') then l_diff_from c u s' r (N.succ i) else N.succ i
+  end.
+
+(* The no-auth entry points carry no authority clause (they are the constructor's tools); what the property
+   demands of them is the second sentence: after each of them the queryable membership still describes exactly
+   the set - the named pair entered / left it and nothing else, count = number of holders, gap-free indices -
+   and nothing else of the contract moved.  An ordinary call is judged by the access-control monitor. *)
+Definition l_mon_step (h : lheader) (p : aobs) (it : litem) : bool :=
+  let '(cl, ok, o) := it in
+  let hh := lh h in
+  let u := ah_u hh in
+  let same_members := eqb_membership (membership o) (membership p) in
+  let same_admin := eqb_on (ob_admin o) (ob_admin p) in
+  let same_role_admins := eqb_list eqb_on (role_admins o) (role_admins p) in
+  let same_tokens := eqb_list eqb_on (ob_tokens o) (ob_tokens p) && eqb_list eqb_on (ob_approved o) (ob_approved p) in
+  match cl with
+  | LCall c => mon_step hh p (c, ok, o)
+  | GrantNoAuth a r =>
+      obs_consistent u o && same_admin && same_role_admins && same_tokens &&
+      if ok then eqb_membership (membership o) (membership_set u (membership p) a r true)
+      else same_members &&
+           (* refused only when it would create role number MAX_ROLES + 1 *)
+           negb (obs_has u p a r
+                 || negb (N.eqb (N.of_nat (length (ob_existing p))) (ah_max_roles hh))
+                 || match role_obs u p r with Some ro => (0 <? ro_count ro)%N | None => false end)
+  | RevokeNoAuth a r =>
+      obs_consistent u o && same_admin && same_role_admins && same_tokens &&
+      Bool.eqb ok (obs_has u p a r) &&
+      eqb_membership (membership o) (if ok then membership_set u (membership p) a r false else membership p)
+  | SetRoleAdminNoAuth r ar =>
+      obs_consistent u o && ok && same_members && same_admin && same_tokens &&
+      match index_of r (u_roles u) with
+      | Some k => eqb_list eqb_on (role_admins o) (set_nth (role_admins p) k (Some ar))
+      | None => false
+      end
+  | RemoveRoleAdminNoAuth r =>
+      obs_consistent u o && same_members && same_admin && same_tokens &&
+      Bool.eqb ok (is_some (obs_role_admin u p r)) &&
+      match index_of r (u_roles u) with
+      | Some k => eqb_list eqb_on (role_admins o) (if ok then set_nth (role_admins p) k None else role_admins p)
+      | None => false
+      end
+  | RemoveCountNoAuth r _ =>
+      (* never while the role has a member; no getter moves *)
+      obs_consistent u o && same_members && same_admin && same_role_admins && same_tokens &&
+      (if ok then match role_obs u p r with Some ro => N.eqb (ro_count ro) 0 | None => false end else true)
+  | EnsureAuthority r caller =>
+      obs_consistent u o && same_members && same_admin && same_role_admins && same_tokens &&
+      Bool.eqb ok (obs_authority u p r caller)
+  | EnsureRole r caller =>
+      obs_consistent u o && same_members && same_admin && same_role_admins && same_tokens &&
+      Bool.eqb ok (obs_has u p caller r)
+  end.
+Definition l_proj (it : litem) : aitem :=
+  let '(cl, ok, o) := it in
+  match cl with LCall c => (c, ok, o) | _ => (Access.Advance 0, true, o) end.
+Fixpoint l_mon_from (h : lheader) (p : aobs) (q : C07.mon) (l : list litem) (i : N) : N :=
+  match l with
+  | [] => 0%N
+  | it :: r =>
+      if l_mon_step h p it then
+        match hand_step (lh h) q (l_proj it) with
+        | Some q' => l_mon_from h (snd it) q' r (N.succ i)
+        | None => N.succ i
+        end
+      else N.succ i
+  end.
+
+(* what a contract constructed with the pair list shows: the admin handed to the constructor, no role admin,
+   no token, and a consistent enumeration (count = number of holders, gap-free, inverse index, existing roles)
+   of EXACTLY the set of listed pairs - a pair listed twice is one member *)
+Definition ctor_membership (u : universe) (pairs : list (addr * role)) : list (list bool) :=
+  fold_left (fun m p => membership_set u m (fst p) (snd p) true) pairs
+            (map (fun _ => map (fun _ => false) (u_accounts u)) (u_roles u)).
+Definition all_none {A} (l : list (option A)) : bool := forallb (fun x => negb (is_some x)) l.
+Definition l_init_ok (h : lheader) (o0 : aobs) : bool :=
+  let u := ah_u (lh h) in
+  obs_consistent u o0
+  && eqb_membership (membership o0) (ctor_membership u (lh_ctor h))
+  && eqb_on (ob_admin o0) (ah_admin (lh h)) && negb (is_some (ob_pending o0))
+  && all_none (role_admins o0)
+  && all_none (ob_tokens o0) && Nat.eqb (length (ob_tokens o0)) (length (u_tokens u))
+  && all_none (ob_approved o0) && Nat.eqb (length (ob_approved o0)) (length (u_tokens u)).
+
+Definition wf_lcall (u : universe) (cl : lcall) : bool :=
+  let A x := inb x (u_accounts u) in let R x := inb x (u_roles u) in
+  match cl with
+  | LCall c => wf_call u c
+  | GrantNoAuth a r | RevokeNoAuth a r => A a && R r
+  | SetRoleAdminNoAuth r ar => R r && R ar
+  | RemoveRoleAdminNoAuth r | RemoveCountNoAuth r _ => R r
+  | EnsureAuthority r c | EnsureRole r c => R r && A c
+  end.
+(* the constructor's pairs belong to the universe and the universe of roles fits into MAX_ROLES
+   (so that no grant of the constructor is refused) *)
+Definition wf_lheader (h : lheader) : bool :=
+  let u := ah_u (lh h) in
+  forallb (fun p => inb (fst p) (u_accounts u) && inb (snd p) (u_roles u)) (lh_ctor h)
+  && (N.of_nat (length (u_roles u)) <=? ah_max_roles (lh h))%N.
+
 (* the monitor stands on its own: a malformed header, a call outside the universe or an initial
    observation that is not the freshly constructed contract's is a monitor failure at index 1 *)
 Definition check (t : trace) : verdict :=
   match t with
+  | TLow h o0 l =>
+      let u := ah_u (lh h) in
+      (if wf_aheader (lh h) && wf_lheader h && eqb_aobs o0 (Access.observe u (lh_init h))
+       then l_diff_from (lh_cfg h) u (lh_init h) l 0%N else 1%N,
+       if wf_aheader (lh h) && wf_lheader h && forallb (fun it => wf_lcall u (fst (fst it))) l && l_init_ok h o0
+       then l_mon_from h o0 (C07.mon_init (c07_hd (lh h))) l 0%N else 1%N, 0%N)
   | TAllow h o0 l =>
       let u := ah_u (alh h) in
       (if wf_aheader (alh h) && wf_alheader h && eqb_alobs o0 (al_observe u (alh_init h))
@@ -455,6 +578,14 @@ Fixpoint al_model_items (c : alcfg) (u : universe) (s : alst) (cs : list alcall)
   end.
 Definition observe_model_allow (h : alheader) (cs : list alcall) : trace :=
   TAllow h (al_observe (ah_u (alh h)) (alh_init h)) (al_model_items (alh_cfg h) (ah_u (alh h)) (alh_init h) cs).
+
+Fixpoint l_model_items (c : cfg) (u : universe) (s : st) (cs : list lcall) : list litem :=
+  match cs with
+  | [] => []
+  | cl :: r => let '(s', ok) := lstep c s cl in (cl, ok, Access.observe u s') :: l_model_items c u s' r
+  end.
+Definition observe_model_low (h : lheader) (cs : list lcall) : trace :=
+  TLow h (Access.observe (ah_u (lh h)) (lh_init h)) (l_model_items (lh_cfg h) (ah_u (lh h)) (lh_init h) cs).
 
 (* ---------------- the monitor rejects bad traces ---------------- *)
 Definition ex_u : universe := {| u_accounts := [0; 1; 2; 3]%N; u_roles := [0; 1; 2]%N; u_tokens := [0; 1]%N |}.
@@ -594,4 +725,51 @@ Example C06_monitor_rejects_malformed :
                  ah_u := {| u_accounts := [0; 1; 1]%N; u_roles := [0]%N; u_tokens := [] |} |}
               (Access.observe {| u_accounts := [0; 1; 1]%N; u_roles := [0]%N; u_tokens := [] |} (ah_init ex_h)) []) = 1%N /\
   mon_tr (TOwn C07.hd16 []) = 1%N.
+Proof. vm_compute. repeat split; reflexivity. Qed.
+
+(* ---- constructors with account lists and the no-auth entry points ---- *)
+Definition ex_lh (pairs : list (addr * role)) : lheader := {| lh := ex_h; lh_ctor := pairs |}.
+Definition l_obs0 (pairs : list (addr * role)) : aobs := Access.observe ex_u (lh_init (ex_lh pairs)).
+Definition l_good (pairs : list (addr * role)) (cs : list lcall) : list litem :=
+  l_model_items (ah_cfg ex_h) ex_u (lh_init (ex_lh pairs)) cs.
+Definition ex_pairs : list (addr * role) := [(1, 2); (1, 2); (0, 2); (1, 0); (3, 2); (1, 2)]%N.
+Definition ex_lcalls : list lcall :=
+  [LCall (Revoke 1 2 0 [0]); GrantNoAuth 1 2; GrantNoAuth 1 2; RevokeNoAuth 0 2; RevokeNoAuth 0 2; EnsureAuthority 1 3; EnsureAuthority 1 0;
+   SetRoleAdminNoAuth 1 2; EnsureAuthority 1 3; RemoveRoleAdminNoAuth 1; RemoveRoleAdminNoAuth 1; EnsureRole 2 3; EnsureRole 2 0;
+   LCall (RenounceAdmin [0]); GrantNoAuth 2 1; LCall (Grant 2 0 1 [1])]%N.
+(* the model's own trace passes: a list with a pair named three times, the admin among the members, later no-auth traffic *)
+Example C06_monitor_accepts_duplicate_list :
+  check (TLow (ex_lh ex_pairs) (l_obs0 ex_pairs) (l_good ex_pairs ex_lcalls)) = (0, 0, 0)%N /\
+  ro_count (nth 2 (ob_roles (l_obs0 ex_pairs)) dummy_robs) = 3%N /\
+  map snd (map fst (l_good ex_pairs ex_lcalls)) =
+    [true; true; true; true; false; false; true; true; true; true; false; true; false; true; true; false].
+Proof. vm_compute. repeat split; reflexivity. Qed.
+(* a constructor list naming the same account twice, built WITHOUT the early return of grant_role_no_auth: one holder
+   counted twice (count 2, has_role index 1, two enumeration slots) - rejected at birth; so are a member the
+   constructor was not told and a listed member that is missing *)
+Example C06_monitor_rejects_bad_birth :
+  mon_tr (TLow (ex_lh [(1, 2); (1, 2)]%N) (Access.observe ex_u (bad_ctor (ah_cfg ex_h) 100 (Some 0%N) [(1, 2); (1, 2)]%N)) []) = 1%N /\
+  mon_tr (TLow (ex_lh [(1, 2); (1, 2)]%N) (l_obs0 [(1, 2); (1, 2)]%N) []) = 0%N /\
+  mon_tr (TLow (ex_lh [(1, 2)]%N) (l_obs0 [(1, 2); (3, 2)]%N) []) = 1%N /\
+  mon_tr (TLow (ex_lh [(1, 2); (3, 2)]%N) (l_obs0 [(1, 2)]%N) []) = 1%N /\
+  (* a pair outside the universe / more role names than MAX_ROLES: malformed *)
+  mon_tr (TLow (ex_lh [(9, 2)]%N) (l_obs0 [(9, 2)]%N) []) = 1%N.
+Proof. vm_compute. repeat split; reflexivity. Qed.
+(* a later no-auth grant to a holder that appends the account once more; a no-auth revoke of a non-member that
+   "succeeds"; the authority guard passing for the holder of some other role although the role has no admin role *)
+Example C06_monitor_rejects_low_level_misbehaviour :
+  mon_tr (TLow (ex_lh [(1, 2)]%N) (l_obs0 [(1, 2)]%N)
+            [(GrantNoAuth 1 2, true, Access.observe ex_u (bad_ctor (ah_cfg ex_h) 100 (Some 0%N) [(1, 2); (1, 2)]))%N]) = 1%N /\
+  mon_tr (TLow (ex_lh [(1, 2)]%N) (l_obs0 [(1, 2)]%N) [(RevokeNoAuth 3 2, true, l_obs0 [(1, 2)])%N]) = 1%N /\
+  mon_tr (TLow (ex_lh [(1, 2)]%N) (l_obs0 [(1, 2)]%N) [(RevokeNoAuth 1 2, false, l_obs0 [(1, 2)])%N]) = 1%N /\
+  mon_tr (TLow (ex_lh [(1, 2)]%N) (l_obs0 [(1, 2)]%N) [(EnsureAuthority 0 1, true, l_obs0 [(1, 2)])%N]) = 1%N /\
+  mon_tr (TLow (ex_lh [(1, 2)]%N) (l_obs0 [(1, 2)]%N) [(LCall (Grant 3 0 1 [1]), true, l_obs0 [(1, 2); (3, 0)])%N]) = 1%N /\
+  mon_tr (TLow (ex_lh [(1, 2)]%N) (l_obs0 [(1, 2)]%N) [(EnsureAuthority 0 0, true, l_obs0 [(1, 2)])%N]) = 0%N.
+Proof. vm_compute. repeat split; reflexivity. Qed.
+(* remove_role_accounts_count_no_auth "succeeds" while the role has a member; on empty roles either answer is accepted *)
+Example C06_monitor_rejects_count_removed_with_members :
+  mon_tr (TLow (ex_lh [(1, 2)]%N) (l_obs0 [(1, 2)]%N) [(RemoveCountNoAuth 2 true, true, l_obs0 [(1, 2)])%N]) = 1%N /\
+  check (TLow (ex_lh [(1, 2)]%N) (l_obs0 [(1, 2)]%N)
+           (l_good [(1, 2)]%N [RemoveCountNoAuth 2 true; RemoveCountNoAuth 0 true; RemoveCountNoAuth 0 false]%N)) = (0, 0, 0)%N /\
+  map snd (map fst (l_good [(1, 2)]%N [RemoveCountNoAuth 2 true; RemoveCountNoAuth 0 true; RemoveCountNoAuth 0 false]%N)) = [false; true; false].
 Proof. vm_compute. repeat split; reflexivity. Qed.
